@@ -99,18 +99,28 @@ def grep_forbidden():
     return hits
 
 
+def prop_modules(pid):
+    """Props modules of a property: Props/<pid>.lean plus Props/<pid>_*.lean (all in namespace <pid>)."""
+    d = os.path.join(LEAN, "LitedramVerif", "Props")
+    names = [pid] + sorted(f[:-5] for f in os.listdir(d) if f.startswith(pid + "_") and f.endswith(".lean"))
+    return names
+
+
 def prop_theorems(pid):
-    """Names of the theorems stated in Props/<pid>.lean (namespace = pid)."""
-    path = os.path.join(LEAN, "LitedramVerif", "Props", pid + ".lean")
-    src = strip_lean_comments(open(path).read())
-    return [m.group(1) for m in re.finditer(r"^\s*theorem\s+([A-Za-z0-9_'.!?]+)", src, re.M)]
+    """Names of the theorems stated in the property's Props modules (namespace = pid)."""
+    res = []
+    for mod in prop_modules(pid):
+        path = os.path.join(LEAN, "LitedramVerif", "Props", mod + ".lean")
+        src = strip_lean_comments(open(path).read())
+        res += [m.group(1) for m in re.finditer(r"^\s*theorem\s+([A-Za-z0-9_'.!?]+)", src, re.M)]
+    return res
 
 
 def lean_audit(pid):
     """#print axioms for every theorem of Props/<pid>.lean. Returns dict(ok, theorems, axioms, problems)."""
     names = prop_theorems(pid)
     problems = list(grep_forbidden())
-    src = "import LitedramVerif.Props.%s\n" % pid + "".join("#print axioms %s.%s\n" % (pid, n) for n in names)
+    src = "".join("import LitedramVerif.Props.%s\n" % m for m in prop_modules(pid)) + "".join("#print axioms %s.%s\n" % (pid, n) for n in names)
     with tempfile.NamedTemporaryFile("w", suffix=".lean", dir=LEAN, delete=False, prefix=".audit_") as f:
         f.write(src); tmp = f.name
     try:
